@@ -450,6 +450,76 @@ def rand_lines(rng):
     return lines
 
 
+ALIAS_STD = {'submit': 'submitted', 'fail': 'failed', 'start': 'started', 'succeed': 'succeeded',
+             'expire': 'expired', 'finish': 'finished', 'submit-fail': 'submit-failed'}
+
+
+def same_task_lines(rng):
+    """one task named several times in one left-hand expression, with nodes that are prefixes of one another:
+    an alias / standard qualifier next to the same qualifier extended with "-..." (built-in: submit and
+    submit-fail; custom outputs like fail-safe), a name next to the name extended with -+%@, with and without
+    offset / qualifier.  (Whole nodes are rewritten in the recorded expression; a longer node must stay intact.)"""
+    base = rng.choice(['a', 'foo', 'm1', 'a-x', 't%1', 'u@v', '_u'])
+    others = [n for n in ['b', 'c', 'x', 'bar', 'Zed'] if n != base]
+    off = rng.choice(['', '', '', '[-P1]', '[^]'])
+    kind = rng.choice(['qual', 'qual', 'qual', 'qual', 'name', 'offset', 'mixed'])
+
+    def leaf(name, o, q):
+        opt = not q.startswith('finish') or q not in ('finish', 'finished')
+        if q == '' and rng.random() < 0.5:
+            opt = False
+        return {'n': {'name': name, 'off': o, 'q': q, 'opt': bool(opt), 'sui': False}}
+
+    def qual_pair():
+        a = rng.choice(['submit', 'fail', 'start', 'succeed', 'expire', 'finish'])
+        q1 = rng.choice([a, a, a, ALIAS_STD[a]])
+        if a == 'submit' and rng.random() < 0.5:
+            q2 = rng.choice(['submit-fail', 'submit-failed']) if q1 == 'submit' else 'submitted-x'
+        else:
+            q2 = q1 + '-' + rng.choice(['safe', 'up', 'x', '1', 'fail', 'all', 'a_b'])
+        return [q1, q2]
+
+    leaves = []
+    if kind in ('qual', 'mixed'):
+        q1, q2 = qual_pair()
+        leaves += [leaf(base, off, q1), leaf(base, off, q2)]
+        if rng.random() < 0.3:
+            leaves.append(leaf(base, off, rng.choice(['', q2 + '-y', ALIAS_STD.get(q1, q1)])))
+    if kind in ('name', 'mixed'):
+        q = rng.choice(['', '', 'fail', 'x', 'start'])
+        ext = rng.choice(['-x', '+1', '%1', '@v', '-' + base, '_1', '1'])
+        leaves += [leaf(base, off, q), leaf(base + ext, off, q)]
+        if rng.random() < 0.4:
+            leaves.append(leaf('x-' + base, off, q))
+    if kind in ('offset', 'mixed'):
+        q = rng.choice(['', 'fail', 'succeed'])
+        leaves += [leaf(base, '', q), leaf(base, '[-P1]', q), leaf(base, rng.choice(['[-P1D]', '[-P1:x]', '[-P12]']), q)]
+    if rng.random() < 0.4:
+        leaves.append({'n': rand_node(rng, others, 'L', 'allopt')})
+    # one entry per distinct node text, in random order
+    seen, uniq = set(), []
+    for lf in leaves:
+        t = node_text(lf['n'])
+        if t not in seen:
+            seen.add(t)
+            uniq.append(lf)
+    rng.shuffle(uniq)
+    tree = uniq[0]
+    for lf in uniq[1:]:
+        if rng.random() < 0.6:
+            tree = OR(tree, lf)
+        else:
+            tree = AND(PAR(tree) if 'or' in tree else tree, lf)
+    if rng.random() < 0.2:
+        tree = PAR(tree)
+    rest = [[{'name': rng.choice(others), 'off': '', 'q': '', 'opt': False, 'sui': False}]
+            for _ in range(rng.choice([1, 1, 2]))]
+    lines = [{'head': tree, 'rest': rest}]
+    if rng.random() < 0.3:
+        lines += plain_lines(rng)[:1]
+    return lines
+
+
 def plain_lines(rng):
     """graphs of plain and lightly qualified nodes over few names: end-of-chain / chain-vs-pairs situations"""
     names = rng.sample(['a', 'b', 'c', 'd', 'x'], rng.randint(2, 4))
@@ -629,6 +699,7 @@ class C14(Prop):
     props_modules = ['CylcModel.Props.C14']
     theorems = [
         'CylcModel.C14.tables_ok',
+        'CylcModel.C14.rewrite_boundaries_ok',
         'CylcModel.C14.text_layer',
         'CylcModel.C14.text_layer_checked',
         'CylcModel.C14.parse_text_of_layout',
@@ -648,7 +719,9 @@ class C14(Prop):
         'CylcModel.C14.malformed_rejected_partial_lines',
     ]
     statement_note = (
-        'partial. Proved for all inputs (no size bounds): TEXT LAYER [text_layer, text_layer_checked, '
+        'partial. [rewrite_boundaries_ok] the look-around sets of the live regexes that delimit a rewritten node '
+        'contain every character that can continue a node (generated table, decide). Proved for all inputs (no '
+        'size bounds): TEXT LAYER [text_layer, text_layer_checked, '
         'parse_text_of_layout] every layout of token lines - any white space at token boundaries, trailing '
         'comments, blank/comment-only lines, line breaks with their own comments next to => & | - is read by the '
         'first two loops of parse_graph (port: comments, bad-spaces regex, white-space stripping, continuation '
@@ -702,7 +775,10 @@ class C14(Prop):
         'lines, lone conjunctions and chains of 2-5 elements, head trees of depth <= 3 (and/or/parentheses), '
         'names with -+%@ and mutual substrings, offsets, xtriggers, all alias / standard / custom / family '
         'qualifiers, four optionality styles, suicide marks; every 4th case a small plain graph over <= 4 names '
-        '(end-of-chain overlaps); each AST rendered in 5 (quick) / 8 (thorough) forms: plain, all pairs, random '
+        '(end-of-chain overlaps); every 8th case one task named several times in one left-hand expression with '
+        'nodes that are prefixes of one another (alias / standard qualifier next to the same qualifier extended '
+        'with "-...", e.g. submit | submit-fail, fail | fail-safe; a name next to the name extended with -+%@; '
+        'with / without offset); each AST rendered in 5 (quick) / 8 (thorough) forms: plain, all pairs, random '
         'cuts + duplicates + shuffles, random white space / comments / blank lines / continuation breaks (each form '
         'is re-rendered by Graph.renderText and checked against the hypotheses of text_layer in the driver); + '
         'mutated renderings (16 mutation kinds: insert/delete/replace a character, doubled operator, dangling / '
@@ -798,6 +874,8 @@ class C14(Prop):
             'a => b[-P1] & c', 'a => b[-P1]', '!a', 'a | b', '@x', 'a => b)(', 'a &\n& b => c', 'a =>\n=> b',
             'a?? => b', 'a::b => c', 'a[] => b', 'a[x][y] => b', 'a:succeed-all => b', 'a => b:succeed-all',
             'a:finish? => b', 'a:finish => b', 'a => b:finish', 'a => b:expire', 'a => b:fail', 'a => b & b:fail?',
+            'a:submit? | a:submit-fail? => b', 'a:fail? | a:fail-safe => b', '(a:start & a:start-up) | c => b',
+            'a | a-x | a:fail? | a[-P1] => b', 'a:finish | a:finished-x => b', 'x-a | a | a+1 => b',
             'a => b\na => !b', 'a & b => c\nb & a => c', '', '\n', '# only a comment', 'a', 'a => b => c => d',
         ]]
         L = [{'head': {'n': node('a')['n']}, 'rest': [[node('b')['n']]]},
@@ -810,7 +888,7 @@ class C14(Prop):
         n_ast, nforms, n_raw = {'quick': (700, 5, 2000), 'thorough': (10000, 8, 60000)}.get(tier, (30000, 8, 150000))
         bases = []
         for k in range(n_ast):
-            lines = plain_lines(rng) if k % 4 == 0 else rand_lines(rng)
+            lines = plain_lines(rng) if k % 4 == 0 else same_task_lines(rng) if k % 8 == 3 else rand_lines(rng)
             if k % 6 == 1:
                 c = ast_case(rng, config_lines(rng), nforms, cfg=True)
             else:
